@@ -617,6 +617,7 @@ fn run(tier: Tier) -> Sink {
         Job::Long(p, _) => std::cmp::Reverse(p.iter().map(|r| r.1).sum::<u64>()),
         Job::Short(..) => std::cmp::Reverse(0),
     });
+    let t0 = std::time::Instant::now();
     let mut s = par_judge(&jobs, |j, s| match j {
         Job::Short(len, idx, ty) => dispatch_short(*len, *idx, *ty, &tc, s),
         Job::Long(p, 0) => {
@@ -634,6 +635,8 @@ fn run(tier: Tier) -> Sink {
         Job::Long(p, 2) => judge_long::<f16>(p, s),
         Job::Long(p, _) => judge_long::<bf16>(p, s),
     });
+    let _ = t0;
+    let t1 = std::time::Instant::now();
     // (W) whole-type windows: bf16 all pairs (quick) / all triples (thorough); f16 pairs
     let wb = window::<bf16>(-3, 3, 7);
     let nb = wb.len() as u64;
@@ -651,6 +654,8 @@ fn run(tier: Tier) -> Sink {
         }),
     };
     s = s.merge(w);
+    let _ = t1;
+    let t2 = std::time::Instant::now();
     let wf = window::<f16>(tier.pick(-1, -3), tier.pick(1, 3), 10);
     let nf = wf.len() as u64;
     let w2 = par_range(0, nf, |i, s| {
@@ -659,6 +664,7 @@ fn run(tier: Tier) -> Sink {
         }
     });
     s = s.merge(w2);
+    let _ = t2;
     s.count("window_values_bf16", nb);
     s.count("window_values_f16", nf);
     s
